@@ -156,7 +156,7 @@ def rename(vtype, prof, sigma):
 
 class Family:
     def __init__(self, name, vtype, make, kind='sel', scale_free=True, order_free=True, declared=False,
-                 n_seats=True, small_weights=False, notes=''):
+                 n_seats=True, small_weights=False, notes='', partial=False, pairwise_cands=False):
         self.name = name
         self.vtype = vtype            # input vote type
         self.make = make              # () -> evaluator object
@@ -167,6 +167,8 @@ class Family:
         self.n_seats = n_seats
         self.small_weights = small_weights   # implementation expands one element per vote: only small integer counts
         self.notes = notes
+        self.partial = partial            # documented as not always filling all seats (quota-based)
+        self.pairwise_cands = pairwise_cands   # candidates present = those occurring in a converted pair
 
 
 def families():
@@ -190,7 +192,8 @@ def families():
                         declared=True))
     for q in ['hare', 'droop']:
         F.append(Family(f'qd_{q}', 'simple', (lambda q=q: vp.QuotaDistributor(q)), kind='dist',
-                        scale_free=(q == 'hare'), declared=True, notes='quota distributor awards whole quotas only'))
+                        scale_free=(q == 'hare'), declared=True, partial=True,
+                        notes='quota distributor awards whole quotas only'))
     F.append(Family('rel_threshold_5pc', 'simple', lambda: vt.RelativeThreshold(Fraction(5, 100)), kind='seatless',
                     n_seats=False))
     F.append(Family('rel_threshold_third', 'simple', lambda: vt.RelativeThreshold(Fraction(1, 3), accept_equal=False),
@@ -198,23 +201,23 @@ def families():
     F.append(Family('abs_threshold_2', 'simple', lambda: vt.AbsoluteThreshold(2), kind='seatless', n_seats=False,
                     scale_free=False))
     F.append(Family('quota_selector_droop', 'simple', lambda: va.QuotaSelector('droop', on_more_over_quota='select'),
-                    scale_free=False, declared=True))
+                    scale_free=False, declared=True, partial=True))
     F.append(Family('quota_selector_hare', 'simple', lambda: va.QuotaSelector('hare', on_more_over_quota='select'),
-                    declared=True))
+                    declared=True, partial=True))
     # Condorcet family on ranked profiles through the real converter
     for nm in vcon.EVALUATORS:
         F.append(Family(f'condorcet_{nm}', 'ranked',
                         (lambda nm=nm: vc.PreConverted(cv.RankedToCondorcetVotes(), vcon.EVALUATORS[nm])),
                         declared=nm.startswith(('schulze', 'copeland', 'minimax')),
-                        order_free=not nm.startswith('rankedpairs'),
+                        order_free=not nm.startswith('rankedpairs'), pairwise_cands=True,
                         notes='ranked pairs only on profiles with pairwise distinct strengths (C10)'))
     F.append(Family('condorcet_winner', 'ranked',
                     lambda: vc.PreConverted(cv.RankedToCondorcetVotes(), vcon.CondorcetWinner()), kind='seatless',
-                    n_seats=False))
+                    n_seats=False, pairwise_cands=True))
     F.append(Family('smith_set', 'ranked', lambda: vc.PreConverted(cv.RankedToCondorcetVotes(), vcon.SmithSet()),
-                    kind='seatless', n_seats=False))
+                    kind='seatless', n_seats=False, pairwise_cands=True))
     F.append(Family('schwartz_set', 'ranked', lambda: vc.PreConverted(cv.RankedToCondorcetVotes(), vcon.SchwartzSet()),
-                    kind='seatless', n_seats=False))
+                    kind='seatless', n_seats=False, pairwise_cands=True))
     F.append(Family('benham', 'ranked_noshared', lambda: vs.Benham()))
     F.append(Family('tideman_alternative', 'ranked_noshared', lambda: vs.TidemanAlternative()))
     F.append(Family('baldwin', 'ranked_noshared', lambda: vs.Baldwin()))
@@ -304,3 +307,14 @@ def canon_outcome(kind, obs):
        - dist: the map
        - sel/seatless: the list with ties canonical (the order is kept: all compared runs use the same rule)"""
     return canon(obs)
+
+
+def present_candidates(fam, prof):
+    """candidates 'appearing in the votes' as the evaluator sees them"""
+    vt = base_vtype(fam.vtype)
+    if fam.pairwise_cands and vt == 'ranked':
+        import votelib.convert as cv
+        nm = Names(prefix='cand')
+        pw = cv.RankedToCondorcetVotes().convert(build('ranked', prof, nm))
+        return sorted({nm.i(c) for pair in pw for c in pair})
+    return candidates_of(vt, prof)
